@@ -411,7 +411,27 @@ def judge_cplx(case, ctx, prefix):
     if dd != dd0:
         ctx.violation(f'{prefix}/to_complex/argument-mutated', f'to_complex(degree=True) changed its argument {dd0!r} -> {dd!r}', {})
     forms['polar-deg-second-call'] = call(loaders.to_complex, dd, True)
-    u = call(dl.undictify_complex_values, {'c': {'real': z.real, 'imag': z.imag}, 'p': {'abs': mag, 'phase': ph}, 'd': {'abs': mag, 'phase_deg': math.degrees(ph)}})
+    flat = {'c': {'real': z.real, 'imag': z.imag}, 'p': {'abs': mag, 'phase': ph}, 'd': {'abs': mag, 'phase_deg': math.degrees(ph)}}
+    flat0 = copy.deepcopy(flat)
+    u = call(dl.undictify_complex_values, flat)
+    if flat != flat0:
+        ctx.violation(f'{prefix}/undictify_complex_values/argument-mutated', f'undictify_complex_values rewrote the dictionary it was given: {flat0!r} -> {flat!r}', {})
+    nested = {'entries': [{'id': 'Z1', 'Z': {'real': z.real, 'imag': z.imag}}, {'id': 'V1', 'V': {'abs': mag, 'phase': ph}}], 'inner': {'y': {'real': 1.0, 'imag': -z.imag}}}
+    nested0 = copy.deepcopy(nested)
+    un = call(dl.undictify_all_complex_values, nested)
+    if nested != nested0:
+        ctx.violation(f'{prefix}/undictify_all_complex_values/argument-mutated', f'undictify_all_complex_values rewrote the description it was given: {nested0!r} -> {nested!r}', {})
+    elif not raised(un):
+        again = call(dl.undictify_all_complex_values, nested)
+        if raised(again) or again != un:
+            ctx.violation(f'{prefix}/undictify_all_complex_values/repeated-load-differs', f'{un!r} vs {again!r}', {})
+        if raised(un) or un['entries'][0]['Z'] != z or abs(un['entries'][1]['V'] - z) > tol:
+            ctx.violation(f'{prefix}/undictify_all_complex_values/wrong-value', f'{un!r}', {})
+    cplx_doc = {'a': z, 'b': 2.5}
+    cplx0 = dict(cplx_doc)
+    dz = call(dl.dictify_complex_values, cplx_doc)
+    if cplx_doc != cplx0:
+        ctx.violation(f'{prefix}/dictify_complex_values/argument-mutated', f'dictify_complex_values rewrote the dictionary it was given: {cplx0!r} -> {cplx_doc!r}', {})
     if raised(u):
         ctx.violation(f'{prefix}/undictify_complex_values/raised/{u.type}', u.text, {})
     else:
